@@ -104,18 +104,66 @@ IfExprs(tier) ==
               c \in {"false", "ext1(1)"}, d \in {"ext1(5)", "extf()", "nil"}, e \in {"true", "ext1(8)", "extf()"}, a \in {"1", "extn()"}, b \in {"ext1(6)", "false"}}
       ELSE {})
 
+\* ---- scope shapes: a binder that introduces the name x while an OUTER x is read by the binder's own initialiser /
+\* iterator / bound expressions (which Lua evaluates before the new x exists), in every binder kind; plus the implicit
+\* and explicit `self` of methods.  Every rule that tracks scopes (remove_unused_variable, rename_variables,
+\* convert_local_function_to_assign, group_local_assignment, inject_global_value ...) must resolve these like Lua does.
+It == "local function it(s, i) if i < s then return i + 1 end end "
+OuterUses(tier) == IF tier = "thorough" THEN {"x", "x + 0", "(x)", "f(x)", "-(-x)", "({x})[1]"} ELSE {"x", "x + 0", "f(x)"}
+BinderShapes(u) == {
+  "local x = 2 local x = " \o u \o " ext1(x)",
+  "local x = 2 local y, x = 1, " \o u \o " ext1(x, y)",
+  "local x = 2 local x, y = " \o u \o ", " \o u \o " ext1(x, y)",
+  "local x = 2 for x = 1, " \o u \o " do ext1(x) end",
+  "local x = 2 for x = " \o u \o ", 3 do ext1(x) end",
+  "local x = 2 for x = 1, 3, " \o u \o " do ext1(x) end ext1(x)",
+  It \o "local x = 2 for x in it, " \o u \o ", 0 do ext1(x) end",
+  It \o "local x = 2 for i, x in it, " \o u \o ", 0 do ext1(i, x) end",
+  It \o "local x = 0 for x in it, 2, " \o u \o " do ext1(x) end ext1(x)",
+  It \o "local x = it for x in " \o u \o ", 2, 0 do ext1(x) end",
+  "local x = 2 local function g(x) return x end ext1(g(" \o u \o "))",
+  "local x = 2 local g = function(x, ...) return x, ... end ext1(g(1, " \o u \o "))",
+  "local x = 2 repeat local x = " \o u \o " - 2 ext1(x) until x == 0",
+  "local x = 2 repeat local y = " \o u \o " x = x - 1 until x == 0 ext1(x)",
+  "local x = 2 while x > 0 do local x = " \o u \o " ext1(x) break end",
+  "local x = 2 if x then local x = " \o u \o " + 1 ext1(x) end ext1(x)",
+  "local x = 2 do local x = " \o u \o " end ext1(3)",
+  "local x = 2 do local x = " \o u \o " ext1(x) end",
+  "local x = 2 local x = function() return " \o u \o " end ext1(x())",
+  "local x = 2 local function h() local x = " \o u \o " return x end ext1(h())",
+  "local x = 2 local function h(y) local x, y = y, " \o u \o " return x, y end ext1(h(5))" }
+SelfShapes == {
+  "local x = 2 local function x(n) if n then return 1 end return x(true) end ext1(x())",
+  "local x = function() return 5 end local x = function() return x() + 1 end ext1(x())",
+  "local o = {v = 1} function o:get(self) return self end ext1(o:get(5))",
+  "local o = {v = 1} function o:get(a, self) return self, a end ext1(o:get(5, 6))",
+  "local o = {v = 1} function o:get(self) return function() return self end end ext1(o:get(5)())",
+  "local o = {v = 1} function o:get() local self = 3 return self end ext1(o:get())",
+  "local o = {v = 1} function o:get() return function(self) return self end end ext1(o:get()(7))",
+  "local o = {v = 1} function o:get() return function() return self.v end end ext1(o:get()())",
+  "local o = {v = 1} function o.get(self) return self.v end ext1(o:get())",
+  "local o = {v = 1} function o.get(self, self2) return self2 end ext1(o:get(8))",
+  "local self = 4 local o = {v = 1} function o:get() return self.v end ext1(o:get(), self)",
+  "local self = 4 local o = {v = 1} function o.get() return self end ext1(o.get())",
+  "local o = {v = 1, p = {v = 2}} function o.p:get(...) local self2 = self return self2.v, ... end ext1(o.p:get(9))",
+  "local x, y = 1, 2 local y, x = x, y ext1(x, y)",
+  "local x = 1 local function g() return x end local function h(x) return g() + x end ext1(h(5))",
+  "local x = 1 local function g() x = x + 1 return x end local x = g() ext1(x, g())" }
+ScopeShapes(tier) == UNION {BinderShapes(u) : u \in OuterUses(tier)} \cup SelfShapes
+
 Family(name, tier) ==
   CASE name = "unused"   -> UnusedLocals(tier)
     [] name = "removed"  -> RemovedCalls(tier)
     [] name = "compound" -> CompoundTargets(tier)
     [] name = "method"   -> MethodCalls(tier)
     [] name = "ifexpr"   -> IfExprs(tier)
+    [] name = "scope"    -> ScopeShapes(tier)
     [] OTHER -> {}
 \* which families belong to which group of properties (the rules of the group act on these shapes)
 FamiliesOf(group) ==
-  CASE group = "c01" -> {"unused", "ifexpr"}           \* default rules: unused variables, static evaluation of if-expressions
+  CASE group = "c01" -> {"unused", "ifexpr", "scope"}  \* default rules: unused variables, static evaluation of if-expressions, scope tracking
     [] group = "c06" -> {"compound", "ifexpr"}         \* lowering rules
-    [] group = "c16" -> {"unused", "method"}           \* group_local_assignment, remove_nil_declaration, remove_method_call
+    [] group = "c16" -> {"unused", "method", "scope"}  \* group_local_assignment, remove_nil_declaration, remove_method_call, local function conversions
     [] group = "c17" -> {"removed"}                    \* remove_assertions, remove_debug_profiling
     [] OTHER -> {}
 =============================================================================
